@@ -146,9 +146,14 @@ func run() int {
 			jobs = len(sel)
 		}
 	}
-	workersPerHarness = runtime.NumCPU() / len(sel)
+	// harnesses run two at a time, each with half of the cores as path workers
+	workersPerHarness = runtime.NumCPU() / 2
 	if workersPerHarness < 1 {
 		workersPerHarness = 1
+	}
+	jobs = 2
+	if len(sel) == 1 {
+		workersPerHarness = runtime.NumCPU()
 	}
 	if *flagTrace {
 		workersPerHarness = 1
